@@ -32,7 +32,8 @@ from automata.fa.nfa import NFA
 from automata.regex import regex as rx
 
 from harness import rx_common as R
-from harness.common import Ctx, Toks, call, toks
+from harness import rx_sequences as S
+from harness.common import Ctx, InfraError, Toks, call, toks
 
 LEVEL = "proof"
 RULE = ("cases = (a) strings that are sequences of the documented tokens: every sequence of length ≤3 over the 16 "
@@ -292,6 +293,11 @@ def check_cmp(ctx: Ctx, e1, e2, sigma: str, origin: str, style_rng=None):
         bad = [f"{n}={r[1]} (languages say {w[1]})" for n, r, w in zip(names, real, want) if r != w]
         ctx.prop_fail(f"{s1!r} vs {s2!r} over {sorted(sigma)}: " + "; ".join(bad), case, None)
         return
+    model_cmp(ctx, s1, s2, sigma, case, real)
+
+
+def model_cmp(ctx: Ctx, s1: str, s2: str, sigma, case: dict, real):
+    """Correspondence of one comparison: the model helpers' answers against the real ones."""
     line = ctx.driver("drv_regex").ask(toks("RX_CMP", R.enc_str(s1), R.enc_str(s2), R.enc_syms(sorted(sigma))))
     t = Toks(line)
     k = t.next()
@@ -348,8 +354,88 @@ def rand_nearly_valid(rng, max_len: int) -> List[str]:
     return texts
 
 
+_KIND1 = {"(": "lp", ")": "rp", "|": "bin", "&": "bin", "^": "bin", "*": "post", "+": "post", "?": "post"}
+
+
+def kinds_of(s: str) -> List[str]:
+    """Token kinds of a string made of documented tokens over ANY symbols (for `in_grammar`)."""
+    out, i = [], 0
+    while i < len(s):
+        c = s[i]
+        if c in " \t":
+            i += 1
+        elif c == "{":
+            i = s.index("}", i) + 1
+            out.append("post")
+        else:
+            out.append(_KIND1.get(c, "atom"))
+            i += 1
+    return out
+
+
+def judge_program_json(text: str):
+    """Entry point of the fresh-interpreter confirmation and of `replay`: run a recorded program of calls through
+    the real library, every step judged by its own oracle; returns the list of failures."""
+    try:
+        return S.judge_steps(json.loads(text))
+    except S.Skip:
+        return []
+
+
+def fresh_alphabet_sequences(ctx: Ctx):
+    """Round 3: short programs of calls (validate / from_regex / a failed call → isequal, issubset, issuperset; the
+    same call twice; the same expressions over two alphabets), each over an alphabet NO earlier call of this process
+    has touched, `()` in most expressions.  Must run before every other family (see harness/rx_sequences.py).
+    Judged: validate accepts renderings of ASTs and refuses (with a RegexException) strings that are outside the
+    grammar by construction — cross-checked with `in_grammar`; from_regex succeeds / refuses accordingly; the three
+    helpers against the derivative oracle `ast_cmp`.  The model is asked afterwards (it has no history)."""
+    rng = ctx.rng
+    used: set = set()
+    history: List[dict] = []
+    failing: list = []
+    for _ in range(ctx.budget(1000, 15000)):
+        prog = S.gen_program(rng, used, "cmp", rewrite_equiv)
+        if prog is None:
+            ctx.stat("seq_no_fresh_alphabet")
+            continue
+        steps = prog["steps"]
+        for st in steps:
+            if "valid" in st and in_grammar(kinds_of(st["re"])) != st["valid"]:
+                raise InfraError(f"sequence generator: {st['re']!r} marked valid={st['valid']} but the grammar says otherwise")
+        used.update(S.touched_alphabets(steps))
+        n_before = len(history)
+        history.extend(S.clean(steps))
+        try:
+            bad = S.judge_steps(steps)
+        except S.Skip:
+            ctx.stat("seq_oracle_budget")
+            continue
+        ctx.stat("sequence")
+        ctx.stat(f"seq_steps_{len(steps)}")
+        ctx.stat(f"seq_alphabet_size_{min(len(prog['sigma']), 6)}")
+        for tg in prog["tags"]:
+            ctx.stat("seq_" + tg)
+        ctx.case(json.dumps(S.clean(steps), sort_keys=True) if len(steps) >= 2 else None)
+        if bad:
+            ctx.stat("seq_failing_program")
+            failing.append((prog, bad, n_before))
+            continue
+        for st in steps:
+            if st["op"] == "cmp":
+                sub, sup = st["_real"][1][1], st["_real"][2][1]
+                ctx.stat(f"seq_cmp_eq{int(sub and sup)}_sub{int(sub)}_sup{int(sup)}")
+                model_cmp(ctx, st["re1"], st["re2"], "".join(st["input_symbols"]),
+                          dict(re1=st["re1"], re2=st["re2"], input_symbols=st["input_symbols"], kind="cmp", origin="sequence"),
+                          tuple(st["_real"]))
+        if ctx.evaluations % 97 == 5:
+            ctx.sample(dict(sequence=S.clean(steps)))
+    S.report_failing(ctx, "C11", failing, history)
+
+
 def run(ctx: Ctx):
     rng = ctx.rng
+    # 0. call sequences over fresh alphabets — FIRST, while no alphabet has been used in this process
+    fresh_alphabet_sequences(ctx)
     # 1. corpus: F5 trigger and friends, m24 shapes
     for texts in ([" "], [" ", " "], [], ["(", "a", "|", ")"], ["(", "|", "a", ")"], ["a", "|", ")"], ["(", ")"],
                   ["(", "(", ")", ")"], ["a", "*", "*"], ["(", ")", "*"], [")", "("], ["(", "a"], ["a", ")"],
@@ -441,7 +527,10 @@ def to_ast(x):
 def replay(ctx: Ctx, path: str) -> int:
     data = json.load(open(path))
     rp = data.get("replay", data)
-    if rp.get("kind") == "cmp":
+    if rp.get("kind") == "sequence":
+        for i, what, _detail in judge_program_json(json.dumps(rp["steps"])):
+            ctx.prop_fail(f"after {S.describe(rp['steps'], i)}: {what}", rp, None)
+    elif rp.get("kind") == "cmp":
         # the rendered strings are what failed; re-render deterministically from the ASTs is not
         # needed: compare the real helpers on the recorded strings against the AST oracle
         e1, e2 = to_ast(rp["ast1"]), to_ast(rp["ast2"])
